@@ -295,4 +295,202 @@ def r8_9(ctx):
     ctx.check("segment_count = len(pulse_segments)" in norm(p.node), p.fq, "segment_count = len(pulse_segments)", p.where, "offset is taken modulo the pattern length", "segment_count is not the pattern length")
 
 
-RULES = [r8_3, r8_4, r8_5, r8_6, r8_7, r8_8, r8_9]
+def _bar_facts(ctx, f):
+    """Structural facts about Bar.__rich_console__ (names are discovered, not assumed)."""
+    from ..linear import lin, show, eq as lin_eq
+    assigns = {}   # name -> [value]
+    augs = {}      # name -> [(value, enclosing-if-test or None)]
+
+    def visit(stmts, guard):
+        for st in stmts:
+            if isinstance(st, ast.Assign) and len(st.targets) == 1:
+                t = st.targets[0]
+                if isinstance(t, ast.Name):
+                    assigns.setdefault(t.id, []).append(st.value)
+                elif isinstance(t, ast.Tuple) and all(isinstance(e, ast.Name) for e in t.elts):
+                    for i, e in enumerate(t.elts):
+                        assigns.setdefault(e.id, []).append(("unpack", st.value, i))
+            elif isinstance(st, ast.AugAssign) and isinstance(st.target, ast.Name):
+                augs.setdefault(st.target.id, []).append((st.op, st.value, guard))
+            elif isinstance(st, ast.If):
+                visit(st.body, st.test)
+                visit(st.orelse, ast.UnaryOp(op=ast.Not(), operand=st.test))
+    visit(f.node.body, None)
+    return assigns, augs
+
+
+def r8_10(ctx):
+    from ..linear import lin, show, eq as lin_eq, _add
+    from .c07 import _cell_width_fn
+    ctx.rule("R8.10", "block bar (Bar): begin and end are converted to eighths of a cell by one monotone formula f(width * 8 * EDGE / size) (same rounding function for both edges), each is split into whole cells and eighths by // 8 and % 8, prefix and body are cells + one 1-cell glyph when eighths > 0 (i.e. ceil(e/8) cells), the early exit guarantees begin < end, __init__ clamps begin >= 0 and end <= size, the width is capped by options.max_width, and the emitted text prefix + body[len(prefix):] + pad has length len(prefix) + max(0, len(body) - len(prefix)) + (width - len(body)) = width because ceil(p/8) <= ceil(b/8) <= width")
+    f = ctx.repo.fn("bar:Bar.__rich_console__")
+    m = f.module
+    assigns, augs = _bar_facts(ctx, f)
+    cw = _cell_width_fn(ctx)
+
+    def mentions(e, attr):
+        return any(isinstance(x, ast.Attribute) and x.attr == attr and isinstance(x.value, ast.Name) and x.value.id == "self" for x in ast.walk(e))
+
+    def single(name):
+        v = assigns.get(name, [])
+        return v[0] if len(v) == 1 and name not in augs else None
+
+    edges = {}
+    for name, vals in assigns.items():
+        for v in vals:
+            if isinstance(v, ast.AST):
+                for attr in ("begin", "end"):
+                    if mentions(v, attr):
+                        edges.setdefault(attr, []).append((name, v))
+    if len(edges.get("begin", [])) != 1 or len(edges.get("end", [])) != 1:
+        raise AnchorVanished("Bar.__rich_console__: expected exactly one local computed from self.begin and one from self.end")
+    (pn, pv), (bn, bv) = edges["begin"][0], edges["end"][0]
+
+    def template(v, attr):
+        class T(ast.NodeTransformer):
+            def visit_Attribute(self, node):
+                if node.attr == attr and isinstance(node.value, ast.Name) and node.value.id == "self":
+                    return ast.Name(id="EDGE", ctx=ast.Load())
+                return self.generic_visit(node)
+        import copy
+        return T().visit(copy.deepcopy(v))
+
+    tp, tb = template(pv, "begin"), template(bv, "end")
+    ctx.check(norm(tp) == norm(tb), f.fq, f"{norm(pv)} / {norm(bv)}", f.where, f"both edges use `{norm(tp)}`",
+              f"the begin edge is computed as `{norm(pv)}` but the end edge as `{norm(bv)}`: with different rounding or scaling the begin can land past the end, the prefix is then longer than the body and the emitted line is one cell wider than the bar's width")
+
+    def muldiv(e, num, den, inv=False):
+        if isinstance(e, ast.BinOp) and isinstance(e.op, ast.Mult):
+            muldiv(e.left, num, den, inv)
+            muldiv(e.right, num, den, inv)
+        elif isinstance(e, ast.BinOp) and isinstance(e.op, ast.Div):
+            muldiv(e.left, num, den, inv)
+            muldiv(e.right, num, den, not inv)
+        else:
+            (den if inv else num).append(norm(e))
+
+    for who, t in (("begin", tp), ("end", tb)):
+        ok = isinstance(t, ast.Call) and norm(t.func) in ("int", "round", "floor", "math.floor", "ceil", "math.ceil") and len(t.args) == 1 and not t.keywords
+        num, den = [], []
+        if ok:
+            muldiv(t.args[0], num, den)
+        ok = ok and sorted(num) == sorted(["width", "8", "EDGE"]) and den == ["self.size"]
+        ctx.check(ok, f.fq, norm(t), f.where, f"{who} edge = rounding(width * 8 * {who} / size): monotone in {who}, at most 8 * width when {who} <= size",
+                  f"Bar: the {who} edge `{norm(t)}` is not a rounding of width * 8 * {who} / size - the number of eighths is no longer bounded by 8 * width / monotone in the edge, so the bar can exceed its width")
+
+    def split_of(edge):
+        """names holding edge // 8 and edge % 8"""
+        cells = eighths = None
+        for name, vals in assigns.items():
+            if len(vals) != 1 or name in augs:
+                continue
+            v = vals[0]
+            if isinstance(v, tuple):
+                _, call, idx = v
+                if isinstance(call, ast.Call) and norm(call.func) == "divmod" and len(call.args) == 2 and norm(call.args[0]) == edge and norm(call.args[1]) == "8":
+                    if idx == 0:
+                        cells = name
+                    else:
+                        eighths = name
+            elif isinstance(v, ast.BinOp) and norm(v.left) == edge and norm(v.right) == "8":
+                if isinstance(v.op, ast.FloorDiv):
+                    cells = name
+                elif isinstance(v.op, ast.Mod):
+                    eighths = name
+        return cells, eighths
+
+    def one_cell_glyph(e):
+        """expression is a 1-cell string (literal or module constant) or TABLE[idx] with all entries 1 cell"""
+        if isinstance(e, ast.Constant) and isinstance(e.value, str):
+            return len(e.value) == 1 and cw(e.value) == 1
+        if isinstance(e, ast.Name) and m.global_assign_count(e.id) == 1:
+            return one_cell_glyph(m.global_assign(e.id))
+        return False
+
+    def table_ok(e, idx_name):
+        if not (isinstance(e, ast.Subscript) and isinstance(e.value, ast.Name) and norm(e.slice) == idx_name):
+            return False
+        if m.global_assign_count(e.value.id) != 1:
+            return False
+        t = m.global_assign(e.value.id)
+        return isinstance(t, (ast.List, ast.Tuple)) and len(t.elts) >= 8 and all(one_cell_glyph(x) for x in t.elts)
+
+    strings = {}
+    for who, edge in (("prefix", pn), ("body", bn)):
+        cells, eighths = split_of(edge)
+        ctx.check(cells is not None and eighths is not None, f.fq, f"{edge} // 8, {edge} % 8", f.where, f"{who} eighths split into whole cells `{cells}` and a remainder `{eighths}` by 8",
+                  f"Bar: `{edge}` is not split into whole cells and eighths with // 8 and % 8 (or divmod(.., 8)): the eighths index can leave 0..7 or the cell count no longer matches")
+        if cells is None or eighths is None:
+            continue
+        found = None
+        for name, vals in assigns.items():
+            if len(vals) == 1 and isinstance(vals[0], ast.BinOp) and isinstance(vals[0].op, ast.Mult):
+                l, r = vals[0].left, vals[0].right
+                if (norm(r) == cells and one_cell_glyph(l)) or (norm(l) == cells and one_cell_glyph(r)):
+                    a = augs.get(name, [])
+                    if len(a) == 1 and isinstance(a[0][0], ast.Add) and a[0][2] is not None and norm(a[0][2]) == eighths and table_ok(a[0][1], eighths):
+                        found = name
+                    elif not a:
+                        found = None
+        ctx.check(found is not None, f.fq, f"{who} string", f.where, f"`{found}` is {cells} one-cell glyphs plus one one-cell glyph iff {eighths} > 0, i.e. ceil({edge} / 8) cells",
+                  f"Bar: the {who} string is not `glyph * {cells}` extended by exactly one one-cell glyph when `{eighths}` is non-zero: its cell length is no longer ceil({edge}/8)")
+        if found:
+            strings[who] = found
+
+    # early exit: begin < end afterwards
+    guard = None
+    for st in f.node.body:
+        if isinstance(st, ast.If) and isinstance(st.test, ast.Compare) and len(st.test.ops) == 1 and st.body and isinstance(st.body[-1], ast.Return):
+            l, op, r = norm(st.test.left), st.test.ops[0], norm(st.test.comparators[0])
+            if (l, r) == ("self.begin", "self.end") and isinstance(op, ast.GtE) or (l, r) == ("self.end", "self.begin") and isinstance(op, ast.LtE):
+                guard = st
+    ctx.check(guard is not None, f.fq, "if self.begin >= self.end: ... return", f.where, "empty bars return early, so begin < end when the edges are computed",
+              "Bar: the early return for begin >= end is gone: with begin > end the prefix is longer than the body and the line exceeds the width")
+    if guard is not None:
+        ys = [x for x in ast.walk(guard) if isinstance(x, ast.Call) and norm(x.func) == "Segment" and x.args]
+        ok = len(ys) == 1 and isinstance(ys[0].args[0], ast.BinOp) and isinstance(ys[0].args[0].op, ast.Mult) and {norm(ys[0].args[0].left), norm(ys[0].args[0].right)} == {"' '", "width"}
+        ctx.check(ok, f.fq, short(ys[0]) if ys else "?", f.where, "the empty bar is exactly `width` spaces", "Bar: the empty bar is not ' ' * width")
+
+    init = ctx.repo.fn("bar:Bar.__init__")
+    ia = {norm(x.targets[0]): x.value for x in walk_local(init.node) if isinstance(x, ast.Assign) and len(x.targets) == 1}
+
+    def clamp(v, fn, a, b):
+        return isinstance(v, ast.Call) and norm(v.func) == fn and sorted(norm(z) for z in v.args) == sorted([a, b])
+    ctx.check(clamp(ia.get("self.begin"), "max", "begin", "0"), init.fq, "self.begin = max(begin, 0)", init.where, "begin >= 0", "Bar.__init__ no longer clamps begin to >= 0: a negative begin gives a negative number of eighths")
+    ctx.check(clamp(ia.get("self.end"), "min", "end", "size"), init.fq, "self.end = min(end, size)", init.where, "end <= size, so the end edge is at most 8 * width eighths", "Bar.__init__ no longer clamps end to <= size: the body can be longer than the width")
+
+    w = single("width")
+    ctx.check(w is not None and isinstance(w, ast.Call) and norm(w.func) == "min" and any(norm(z) == "options.max_width" for z in w.args), f.fq, norm(w) if w is not None else "?", f.where, "bar width capped by options.max_width", "Bar's width is not min(..., options.max_width)")
+
+    # emitted text length
+    if len(strings) == 2:
+        P, B = strings["prefix"], strings["body"]
+
+        def L(e):
+            """symbolic length: list of (kind, Lin) terms; kind 'lin' or 'max0'"""
+            if isinstance(e, ast.BinOp) and isinstance(e.op, ast.Add):
+                a, b = L(e.left), L(e.right)
+                return None if a is None or b is None else a + b
+            if isinstance(e, ast.Name) and e.id in (P, B):
+                return [("lin", {f"len({e.id})": 1})]
+            if isinstance(e, ast.Name) and single(e.id) is not None:
+                return L(single(e.id))
+            if isinstance(e, ast.Subscript) and isinstance(e.slice, ast.Slice) and e.slice.upper is None and e.slice.step is None and e.slice.lower is not None and isinstance(e.value, ast.Name) and e.value.id in (P, B):
+                return [("max0", _add({f"len({e.value.id})": 1}, lin(e.slice.lower), -1))]
+            if isinstance(e, ast.BinOp) and isinstance(e.op, ast.Mult):
+                for s_, n_ in ((e.left, e.right), (e.right, e.left)):
+                    if isinstance(s_, ast.Constant) and isinstance(s_.value, str) and len(s_.value) == 1 and cw(s_.value) == 1:
+                        return [("max0", lin(n_))]
+            return None
+
+        segs = [x for st in f.node.body if not isinstance(st, ast.If) for x in ast.walk(st) if isinstance(x, ast.Call) and norm(x.func) == "Segment" and x.args]
+        if len(segs) != 1:
+            raise AnchorVanished("Bar.__rich_console__: expected one Segment(...) emission after the early exit")
+        terms = L(segs[0].args[0])
+        want = sorted([("lin", show({f"len({P})": 1})), ("max0", show({f"len({B})": 1, f"len({P})": -1})), ("max0", show({"width": 1, f"len({B})": -1}))])
+        got = sorted((k, show(v)) for k, v in terms) if terms is not None else None
+        ctx.check(got == want, f.fq, short(segs[0].args[0]), f.where, f"emitted length = len({P}) + max(0, len({B}) - len({P})) + max(0, width - len({B})) = width",
+                  f"Bar emits `{short(segs[0].args[0])}` whose length is {got}, not len(prefix) + max(0, len(body) - len(prefix)) + (width - len(body)): the line is not exactly `width` cells")
+
+
+RULES = [r8_3, r8_4, r8_5, r8_6, r8_7, r8_8, r8_9, r8_10]
